@@ -37,7 +37,7 @@ def passthrough_cases(tier, seed):
         pairs = pairs[::5]
     for i, (a, b) in enumerate(pairs):
         sep = SEPS[i % len(SEPS)]
-        if sep == '' and (PIECES[a][-1].isalnum() or a in ('slash', 'op', 'star')):
+        if sep == '' and (PIECES[a][-1].isalnum() or a in ('slash', 'op', 'star') or PIECES[a][-1] in '/*\\' or PIECES[b][0] in '/*'):
             sep = ' '
         cases.append(TextCase('pair/%s+%s/%d' % (a, b, i % len(SEPS)), PIECES[a] + sep + PIECES[b] + '\n'))
     for i, eol in enumerate(['\n', '\r\n', '\r', '\n\n', '']):
